@@ -54,12 +54,32 @@ def ref_bonds(elements, pos, cell, radii, nonmetals):
     return out, via, margin
 
 
-def make_atoms(elements, pos, cell):
+def make_atoms(elements, pos, cell, split=None):
+    """split: the structure is typed (as read from a LAMMPS data file or assembled with extend): every second element has two
+    atom types, its atoms alternate between them; the type table lists first types, then second types"""
     from mofun import Atoms
     from mofun.atomic_masses import ATOMIC_MASSES
     types = list(dict.fromkeys(elements))
-    return Atoms(atom_types=[types.index(e) for e in elements], positions=pos, atom_type_elements=types,
-                 atom_type_masses=[ATOMIC_MASSES.get(e, 2.014) for e in types], atom_type_labels=types, cell=cell)
+    if split is None:
+        split = len(elements) % 2 == 1 and len(elements) >= 3
+    if not split:
+        return Atoms(atom_types=[types.index(e) for e in elements], positions=pos, atom_type_elements=types,
+                     atom_type_masses=[ATOMIC_MASSES.get(e, 2.014) for e in types], atom_type_labels=types, cell=cell)
+    second = [e for k, e in enumerate(types) if k % 2 == 0]
+    table = types + second
+    labels = ["%s_1" % e for e in types] + ["%s_2" % e for e in second]
+    seen = {}
+    atom_types = []
+    for e in elements:
+        k = seen.get(e, 0)
+        seen[e] = k + 1
+        atom_types.append(len(types) + second.index(e) if (e in second and k % 2 == 0) else types.index(e))
+    SPLIT_COUNT[0] += 1
+    return Atoms(atom_types=atom_types, positions=pos, atom_type_elements=table, atom_type_masses=[ATOMIC_MASSES.get(e, 2.014) for e in table],
+                 atom_type_labels=labels, cell=cell)
+
+
+SPLIT_COUNT = [0]
 
 
 def cases(tier, seed):
@@ -119,9 +139,12 @@ def check(elements, pos, cell, ctx, st, radii, nonmetals, what, metamorphic_rng=
         # the same cell written with integers (nested list or integer array), as a user typing Atoms(cell=[[10,0,0],...]) does
         cell_given = [[int(v) for v in row] for row in cell] if int_cell == 1 else np.array(cell, dtype=int)
         st.count("integer_cells")
+    n0 = SPLIT_COUNT[0]
     a = make_atoms(elements, pos, cell_given)
     got = np.asarray(detect(a)).reshape(-1, 2)
     st.count("detections_checked")
+    if SPLIT_COUNT[0] > n0:
+        st.count("detections_in_structures_with_several_atom_types_per_element")
     rows = [tuple(int(v) for v in r) for r in got]
     w = {"what": what, "elements": elements[:14], "positions": np.round(pos, 5).tolist()[:14], "cell": None if cell is None else np.round(cell, 5).tolist()}
     if any(i >= j for i, j in rows):
@@ -265,6 +288,8 @@ def run_case(case, ctx):
 
 def requirements(stats, tier):
     need = []
+    if stats.get("detections_in_structures_with_several_atom_types_per_element") < (30 if tier == "quick" else 5000):
+        need.append("detections in structures with several atom types per element: %d" % stats.get("detections_in_structures_with_several_atom_types_per_element"))
     if stats.nseen("first_element") < 97:
         need.append("only %d of 97 first elements covered" % stats.nseen("first_element"))
     if stats.get("element_pairs_x_sides") < 97 * 97 * 2:
